@@ -5,6 +5,8 @@ O3 == <<"a", "b", "c">>
 MBoth == {"RollingInPlace", "RollingRecreate"}
 BBoth == {TRUE, FALSE}
 BNo == {FALSE}
+OCAll == {"none", "Unknown", "False"}
+OCTwo == {"none", "False"}
 PAll == {"fair", "noOG", "zeroOG", "strOG", "stuck"}
 PThree == {"fair", "zeroOG", "stuck"}
 PFair == {"fair"}
